@@ -43,6 +43,7 @@ void shim_parse(int entry, const unsigned char *bytes, size_t n, int placement, 
         }
         buf = heap;
     }
+    probe_stack_fill();
     switch (entry)
     {
         case 0:
